@@ -8,7 +8,7 @@ use crate::runner::*;
 use crate::tape::Tape;
 use crate::with_spec;
 
-pub const RULE: &str = "byte streams from four sources, mixed 3:4:4:1 — canonical encodings of generated documents, reference encodings with non-canonical choices (zero-padded and zero-length integers, 4-byte floats, \
+pub const RULE: &str = "(second stage fixpoint_deep_nesting: the same relation on documents nested 28-300 masters deep over a recursive template specification.) byte streams from four sources, mixed 3:4:4:1 — canonical encodings of generated documents, reference encodings with non-canonical choices (zero-padded and zero-length integers, 4-byte floats, \
 oversized size fields 2-8 bytes, unknown-size masters in any width closed by a following element or EOF), structure-aware mutations of those, blind mutations / random bytes. A stream enters the property only if it begins at a root element \
 and the strict iterator reads it without error (acceptance rate measured and gated). Oracle: t1 = read(b); every item of t1 is accepted by a fresh TagWriter::write; t2 = read(write(t1)) has no error and t2 == t1 item by item \
 (floats by bits, Start/End positions); in a third of the cases b is also read with a generated set of buffered masters and those items (Full masters included) are written back: reading that output must again give t1. Non-trivial: write(t1) != b (the stream was not already in the writer's canonical form); distinct by input bytes.";
